@@ -6,9 +6,10 @@ ASSUME = [
     "the abstract IDL the harness generates is the declared schema; the harness prints it to .thrift text (includes, typedef chains, enums, unions, exceptions, recursive structs, services with inheritance); TLA+ TMirror resolves typedefs/enums/inheritance itself",
     "dynamicgo's descriptor graph is dumped by descriptor identity; every struct node carries the result of FieldById for every id 0..65535 and of FieldByKey for every declared name/alias of the whole IDL and variants "
     "(prefix, extension, upper case, one byte flipped, a control byte inserted, a non-ASCII suffix, empty, 300-byte key); on structs whose fields are all i32/i64 the native converter is probed with {\"key\":1} documents",
+    "declared default values (scalars and enums): a default is written as a literal, as the name of a constant (of the same or an included file; a constant may itself name another constant or an enum value of its own file) or as the name of an enum value; TLA+ TMirror!ResolveDV follows the names and ExpDflt gives the Thrift encoding the field descriptor must hold under UseDefaultValue (none when the option is off); number literals reach the specification as (int64, float64 bits) atoms made by strconv; defaults of container and struct types are not generated (the parser does not implement them)",
     "functions take one argument and at most one exception (the parser wraps only those); duplicate method names in the combined function list are unspecified",
 ]
-RULE = ("cases = the schemas of MC_TDesc (TLC checks resolution and inheritance laws of the specification) + seeded random multi-file IDLs x parse options (ParseEnumAsInt64, MapFieldWay, ParseServiceMode, ServiceName, SetOptionalBitmap); judged by TLC (Trace_TDesc)")
+RULE = ("cases = the schemas of MC_TDesc (TLC checks resolution and inheritance laws of the specification) + seeded random multi-file IDLs x parse options (ParseEnumAsInt64, MapFieldWay, ParseServiceMode, ServiceName, SetOptionalBitmap, UseDefaultValue); judged by TLC (Trace_TDesc)")
 
 
 def run(R):
